@@ -1,0 +1,126 @@
+//go:build verif
+
+package gkvlite
+
+import "unsafe"
+
+// Verification hooks and read-only introspection, compiled only with the
+// "verif" build tag.  Nothing here changes the behaviour of the library: the
+// hooks are nil unless a test harness installs them, and the introspection
+// functions never touch the file and never modify a node.
+
+// VerifEventHook, when set, is called at the version-handling linearization
+// points (while Collection.rootLock is held): "addref", "cas", "decref",
+// and at "iter.exit" when an iterator's producer goroutine returns.
+var VerifEventHook func(ev string, c *Collection, root uintptr, refs int64, chained uintptr)
+
+// VerifYieldHook, when set, is called outside of any lock at points where a
+// deterministic scheduler may want to pre-empt the calling goroutine.
+var VerifYieldHook func(point string, c *Collection)
+
+func verifEvent(ev string, t *Collection, r *rootNodeLoc) {
+	h := VerifEventHook
+	if h == nil {
+		return
+	}
+	if r == nil {
+		h(ev, t, 0, 0, 0)
+		return
+	}
+	h(ev, t, uintptr(unsafe.Pointer(r)), r.refs, uintptr(unsafe.Pointer(r.chainedRootNodeLoc)))
+}
+
+func verifYield(point string, t *Collection) {
+	if h := VerifYieldHook; h != nil {
+		h(point, t)
+	}
+}
+
+// VerifNode describes one cached tree node (or, with Loaded == false, a
+// child that is only known by its file location).
+type VerifNode struct {
+	Addr               uintptr
+	Loaded             bool
+	LocOff             int64 // location of the node record (0,0: not persisted)
+	LocLen             uint32
+	NumNodes, NumBytes uint64
+	Mark               uintptr // node.next: reclaim mark or free-list link
+	ItemOff            int64   // location of the item record (0,0: not persisted)
+	ItemLen            uint32
+	Item               *Item // cached item, nil when not in memory
+	Left, Right        *VerifNode
+}
+
+// VerifRoot describes the version a collection handle currently points at.
+type VerifRoot struct {
+	Addr     uintptr
+	Refs     int64
+	Chained  uintptr
+	MarkAddr uintptr
+	Later    [3]uintptr
+	Tree     *VerifNode
+}
+
+func verifPeekNode(nloc *nodeLoc, budget *int) *VerifNode {
+	if nloc == nil || nloc.isEmpty() || *budget <= 0 {
+		return nil
+	}
+	*budget--
+	res := &VerifNode{}
+	if nloc.loc != nil {
+		res.LocOff, res.LocLen = nloc.loc.Offset, nloc.loc.Length
+	}
+	n := nloc.node
+	if n == nil {
+		return res
+	}
+	res.Loaded = true
+	res.Addr = uintptr(unsafe.Pointer(n))
+	res.NumNodes, res.NumBytes = n.numNodes, n.numBytes
+	res.Mark = uintptr(unsafe.Pointer(n.next))
+	if n.item.loc != nil {
+		res.ItemOff, res.ItemLen = n.item.loc.Offset, n.item.loc.Length
+	}
+	res.Item = n.item.item
+	res.Left = verifPeekNode(&n.left, budget)
+	res.Right = verifPeekNode(&n.right, budget)
+	return res
+}
+
+// VerifPeek returns the cached part of the tree of the version the handle
+// points at, without any file access and without changing anything.
+func VerifPeek(c *Collection) *VerifRoot {
+	if c == nil || c.rootLock == nil {
+		return nil
+	}
+	c.rootLock.Lock()
+	defer c.rootLock.Unlock()
+	r := c.root
+	if r == nil {
+		return nil
+	}
+	res := &VerifRoot{
+		Addr:     uintptr(unsafe.Pointer(r)),
+		Refs:     r.refs,
+		Chained:  uintptr(unsafe.Pointer(r.chainedRootNodeLoc)),
+		MarkAddr: uintptr(unsafe.Pointer(&r.reclaimMark)),
+	}
+	for i, n := range r.reclaimLater {
+		res.Later[i] = uintptr(unsafe.Pointer(n))
+	}
+	budget := 1 << 22
+	res.Tree = verifPeekNode(r.root, &budget)
+	return res
+}
+
+// VerifFreeNodes returns the addresses of the nodes currently on the
+// package-wide free list.
+func VerifFreeNodes() []uintptr {
+	freeNodeLock.Lock()
+	defer freeNodeLock.Unlock()
+	var res []uintptr
+	for n := freeNodes; n != nil && len(res) < 1<<22; n = n.next {
+		res = append(res, uintptr(unsafe.Pointer(n)))
+	}
+	return res
+}
